@@ -68,6 +68,7 @@ def FixedSizeString(size_: int, len_type_: Union[DataType, Type[DataType]] = UDI
 
         @classmethod
         def _encode(cls, value: str, *args, **kwargs) -> bytes:
+            value = value[: cls.size]  # strings longer than the tag are truncated
             return (
                 cls.len_type.encode(len(value))
                 + value.encode(cls.encoding)
